@@ -9,7 +9,9 @@ vars == <<par, pred>>
 Unsafe == {"POST", "PUT", "DELETE", "PATCH", "FOO"}
 Init == /\ par \in [method : Unsafe \cup {"GET", "HEAD", "OPTIONS"}, status : {200, 201, 204, 302, 400, 500},
                     loc : {"none", "rel", "abspath", "absurl", "otherport", "otherhost"}, hdr : {"Location", "Content-Location"},
-                    store : {"mem", "rock", "ufs"}, reader : {"none", "slow"}]
+                    store : {"mem", "rock", "ufs"}, reader : {"none", "slow"},
+                    query : {"none", "slash"}]      \* does the URL of a carry a query with a "/" in it? (a relative reference is merged with the path only)
+        /\ (par.query = "slash" => par.loc = "rel" /\ par.store = "mem" /\ par.reader = "none")
         /\ pred = [a |-> "?", b |-> "?"]
 Invalidates == par.method \in Unsafe /\ par.status < 400
 SameOrigin == par.loc \in {"rel", "abspath", "absurl"}
